@@ -911,6 +911,73 @@ def oracle(ctx, count=None, key='oracle'):
         # fallback: internal failure must leave the unsimulated values, whatever the inputs
         rep.case(kind='oracle-malformed')
     fallback_cases(rep)
+    read_orders(rep, rnd, malformed_histories() + hists[:ctx.n(60, 600)])
+
+
+def read_orders(rep, rnd, hists):
+    """Reads are pure (C09 for simulator-backed values): the configuration of each history is built several times
+    and read in different orders, through `attrs[x]` and through `attrs.get(x)`, once and repeatedly; every schedule
+    must end with the same full observation - also when the simulation fails internally and falls back."""
+    def observe(im, plan):
+        out = {}
+        for kind, i, t, how in plan:
+            try:
+                if kind == 'rah':
+                    m = im.mods[i]
+                    v = m.attrs[im.u.res[t]] if how == 'item' else m.attrs.get(im.u.res[t])
+                else:
+                    sh = im.fit.ship
+                    v = sh.attrs[im.u.res[t]] if how == 'item' else sh.attrs.get(im.u.res[t])
+            except KeyError:
+                v = 'KeyError'
+            except Exception as e:
+                v = 'raises:' + type(e).__name__
+            out.setdefault((kind, i, t), []).append('KeyError' if v is None else v)     # get() answers None for no value
+        return out
+    for h in hists:
+        ops = [op for op in h['ops'] if op['op'] != 'obs']
+        finals = []
+        for sched in range(4):
+            im = Impl(h['pen'])
+            try:
+                for op in ops:
+                    im.apply(op)
+            except Exception:
+                break
+            nr = len(im.mods)
+            ship = im.fit.ship is not None
+            full = [('rah', i, t, 'item') for i in range(nr) for t in T] + ([('ship', 0, t, 'item') for t in T] if ship else [])
+            if sched == 0:
+                pre = []
+            elif sched == 1:
+                pre = list(reversed(full))
+            else:
+                pre = [(k, i, t, rnd.choice(['item', 'get', 'get'])) for k, i, t, _ in full] * rnd.choice([1, 2])
+                rnd.shuffle(pre)
+            with rah_log():
+                first = observe(im, pre)
+                last = observe(im, full)
+            finals.append((sched, pre, first, last))
+        if len(finals) < 4:
+            continue
+        rep.case(kind='oracle-read-orders', sig=('read-orders', json.dumps(ops, sort_keys=True, default=str)))
+        ref = finals[0][3]
+        for sched, pre, first, last in finals[1:]:
+            bad = [key for key in ref if not W_same(ref[key][0], last[key][0])]
+            rep_bad = [key for key, vs in first.items() if any(not W_same(vs[0], x) for x in vs[1:])
+                       or not W_same(vs[0], last[key][0])]
+            if bad or rep_bad:
+                rep.violate('simulator-backed values depend on what was read before: schedule %d gives %r, unread fit gives %r'
+                            % (sched, [(key, last[key][0]) for key in (bad or rep_bad)[:3]],
+                               [(key, ref[key][0]) for key in (bad or rep_bad)[:3]]),
+                            {'history': dict(h, ops=ops), 'reads_before': [list(x) for x in pre]})
+                break
+
+
+def W_same(a, b):
+    if isinstance(a, str) or isinstance(b, str):
+        return a == b
+    return C.close(a, b)
 
 
 def fallback_cases(rep):
